@@ -407,7 +407,7 @@ pub struct NestCase {
     pub target: String,
 }
 
-pub const NEST_KINDS: &[&str] = &["paren", "abs", "subscript", "if-then", "if-else-if", "call", "paren-assign", "neg-paren", "for-bound", "dim"];
+pub const NEST_KINDS: &[&str] = &["paren", "abs", "subscript", "if-then", "if-else-if", "call", "paren-assign", "neg-paren", "for-bound", "dim", "def-chain", "def-chain-args"];
 
 pub fn nest_text(kind: &str, d: usize) -> Vec<String> {
     match kind {
@@ -418,6 +418,22 @@ pub fn nest_text(kind: &str, d: usize) -> Vec<String> {
         "if-else-if" => vec![format!("10 {}PRINT 1", "IF 0 THEN PRINT 2 ELSE ".repeat(d))],
         "call" => vec!["5 DEF QQ(C) = C + 1".to_string(), format!("10 PRINT {}1{}", "QQ(".repeat(d), ")".repeat(d))],
         "paren-assign" => vec![format!("10 V({}1{}) = 1", "(".repeat(d), ")".repeat(d))],
+        // 31 functions, each wrapping a call of the previous one in min(d, 95) parentheses:
+        // every single line stays below any per-line nesting cap and the chain below the
+        // frame cap; only their product is deep
+        "def-chain" | "def-chain-args" => {
+            let p = d.min(95);
+            let mut v = vec!["1 DEF Q0(C) = C + 1".to_string()];
+            for k in 1..31 {
+                if kind == "def-chain" {
+                    v.push(format!("{} DEF Q{}(C) = {}Q{}(C){}", k + 1, k, "(".repeat(p), k - 1, ")".repeat(p)));
+                } else {
+                    v.push(format!("{} DEF Q{}(C) = Q{}({}C{})", k + 1, k, k - 1, "(".repeat(p), ")".repeat(p)));
+                }
+            }
+            v.push("100 PRINT Q30(1)".to_string());
+            v
+        }
         "neg-paren" => vec![format!("10 PRINT {}1{}", "-(".repeat(d), ")".repeat(d))],
         "for-bound" => vec![format!("10 FOR C = 1 TO {}1{} : NEXT C", "INT(".repeat(d), ")".repeat(d))],
         _ => vec![format!("10 DIM V({}1{})", "(".repeat(d), ")".repeat(d))],
@@ -571,6 +587,7 @@ pub fn property() -> Property {
             "native-stack exhaustion is decided for the harness build profile (opt-level 2, overflow checks on) on an 8 MiB main thread",
             "in-process workers run on 256 MiB stacks so that only the child-process battery judges stack exhaustion",
         ],
+        fuzz: Some(FuzzSpec { target: "c01_session", runs: 150_000, max_len: 2048, verdict: crate::fuzz::c01_verdict }),
         families,
         prelude: None,
         epilogue: None,
